@@ -912,6 +912,7 @@ impl Interpreter {
 
         // A previous run may have failed or been abandoned by the host half-way through
         self.reset_execution_state();
+        self.discard_abandoned_run();
 
         // Set main module path if this is the entry point
         if self.main_module_path.is_none() {
@@ -1392,6 +1393,21 @@ impl Interpreter {
         self.call_stack.clear();
     }
 
+    /// Starting a new run abandons whatever the previous one was still waiting for: a
+    /// continuation suspended on an order or a promise, orders not yet reported, responses not
+    /// yet consumed, a program or modules waiting for imports. None of it may resume inside (or
+    /// change the result of) the new run.
+    fn discard_abandoned_run(&mut self) {
+        self.suspended_for_order = None;
+        self.wait_graph = WaitGraph::new();
+        self.promise_ids.clear();
+        self.pending_orders.clear();
+        self.cancelled_orders.clear();
+        self.order_responses.clear();
+        self.pending_program = None;
+        self.pending_module_sources.clear();
+    }
+
     /// Finalize active execution (restore environment, finalize exports)
     fn finalize_active_execution(&mut self) {
         // Take state
@@ -1425,6 +1441,7 @@ impl Interpreter {
 
         // A previous run may have failed or been abandoned by the host half-way through
         self.reset_execution_state();
+        self.discard_abandoned_run();
 
         // Set main module path if this is the entry point
         if self.main_module_path.is_none() {
